@@ -87,9 +87,14 @@ class Tap(object):
 
 def taps(strategy, tag):
     out = []
-    for a in getattr(strategy.stack, "algos", ()):
+
+    def walk(a):
         if isinstance(a, Tap) and a.tag == tag:
-            out += a.dates
+            out.extend(a.dates)
+        for sub in list(getattr(a, "algos", ())) + list(getattr(a, "_list_of_algos", ())):
+            walk(sub)
+
+    walk(strategy.stack)
     return out
 
 
@@ -196,7 +201,7 @@ def rebal(name):
 
 REBALS = ["rebalance", "overtime"]
 
-BASE = {"gate": "daily", "select": "all", "weigh": "equal", "mod": "none", "rebal": "rebalance", "flow": None}
+BASE = {"gate": "daily", "select": "all", "weigh": "equal", "mod": "none", "rebal": "rebalance", "flow": None, "flowgate": None}
 
 
 def stack(st, idx):
@@ -208,9 +213,16 @@ def stack(st, idx):
     risky = st.get("weigh") in RISK_WEIGHS or st.get("mod") == "targetvol"
     if risky:
         out += [A.RunAfterDays(6)]
-    out += gate(g, idx)
-    if st.get("flow") is not None:
-        out += [A.CapitalFlow(float(st["flow"])), Tap("flow")]
+    if st.get("flow") is not None and st.get("flowgate"):
+        # flows on their own schedule: dates with a flow but no rebalance exist
+        fg = gate(st["flowgate"], idx)
+        fl = A.AlgoStack(*(fg + [A.CapitalFlow(float(st["flow"])), Tap("flow")]))
+        out += [A.Or([fl, lambda target: True])]
+        out += gate(g, idx)
+    else:
+        out += gate(g, idx)
+        if st.get("flow") is not None:
+            out += [A.CapitalFlow(float(st["flow"])), Tap("flow")]
     if risky:
         out += [A.SelectThese(["a", "b", "d"]), A.SelectHasData(lookback=pd.DateOffset(days=9), min_count=5)]
     else:
@@ -262,8 +274,9 @@ def build(spec):
         s = bt.Strategy("r", stack(st, idx))
     elif tree == "flat_decl":
         s = bt.Strategy("r", stack(st, idx), ["a", "b", "c", "d"])
-    elif tree == "flat_eager":
-        s = bt.Strategy("r", stack(st, idx), [bt.Security("a"), bt.Security("b", multiplier=spec.get("mult_b", 1)), bt.Security("c"), bt.Security("d")])
+    elif tree in ("flat_eager", "flat_eager_m"):
+        mb = 10 if tree == "flat_eager_m" else 1
+        s = bt.Strategy("r", stack(st, idx), [bt.Security("a", multiplier=2 if mb > 1 else 1), bt.Security("b", multiplier=mb), bt.Security("c"), bt.Security("d")])
     elif tree in ("nested", "nested_sel"):
         cst = dict(BASE)
         cst.update(spec.get("child_stack", {"gate": "weekly"}))
@@ -343,6 +356,8 @@ def stacks(tier):
             add(rebal=r)
         for fl in (1000.0, -1000.0):
             add(flow=fl, gate="weekly")
+            add(flow=fl * 100, gate="monthly", flowgate="weekly")
+            add(flow=fl * 100, gate="once", flowgate="daily", weigh="specified")
         for s in SELECTS:
             for w in WEIGHS:
                 add(select=s, weigh=w)
@@ -361,6 +376,8 @@ def stacks(tier):
                     add(gate=g, weigh=w, mod=m, rebal="overtime")
                     add(gate=g, weigh=w, mod=m, flow=1000.0)
                     add(gate=g, weigh=w, mod=m, flow=-1000.0)
+                    add(gate=g, weigh=w, mod=m, flow=50000.0, flowgate="weekly")
+                    add(gate=g, weigh=w, mod=m, flow=-50000.0, flowgate="daily")
     return out
 
 
@@ -374,25 +391,31 @@ COSTS = [
 
 
 def configs(tier, seed):
-    """(tree, data, alpha, cost, integer, capital)"""
+    """(tree, data, alpha, cost, integer, capital, full_product)"""
     out = []
     if tier == "quick":
         k = seed % len(COSTS)
-        out.append(("flat", "d25", "exact", COSTS[k], True, 1000000.0))
-        out.append(("flat_eager", "d12", "decimal", COSTS[(k + 1) % len(COSTS)], False, 1000000.0))
-        out.append(("nested", "d25", "exact", COSTS[(k + 2) % len(COSTS)], True, 1000000.0))
+        out.append(("flat", "d25", "exact", COSTS[k], True, 1000000.0, True))
+        out.append(("flat_eager", "d12", "decimal", COSTS[(k + 1) % len(COSTS)], False, 1000000.0, False))
+        out.append(("flat_eager_m", "d12", "exact", COSTS[1 + (k % 2)], k % 2 == 0, 1000000.0, False))
+        out.append(("nested", "d25", "exact", COSTS[(k + 2) % len(COSTS)], True, 1000000.0, False))
+        out.append(("deep", "d12", "exact", COSTS[1 + (k % 2) * 3], False, 1000000.0, False))
     else:
-        for tree in ("flat", "flat_eager", "flat_decl"):
-            for data in ("d25", "d6"):
+        for ci, cost in enumerate(COSTS):
+            # the full product of the menus
+            out.append(("flat", "d25", "exact" if ci % 2 == 0 else "decimal", cost, ci % 2 == 0, 1000000.0, True))
+        for tree in ("flat", "flat_eager", "flat_decl", "flat_eager_m"):
+            for data in ("d25", "d6", "d12"):
                 for alpha in ("exact", "decimal"):
                     for ci, cost in enumerate(COSTS):
                         for integer in (True, False):
                             if tree != "flat" and (ci + (alpha == "decimal") + integer) % 3:
                                 continue
-                            out.append((tree, data, alpha, cost, integer, 1000000.0))
+                            out.append((tree, data, alpha, cost, integer, 1000000.0 if ci % 2 else 12345.67, False))
         for tree in ("nested", "nested_sec", "deep", "nested_sel"):
             for ci, cost in enumerate(COSTS):
-                out.append((tree, "d25", "exact" if ci % 2 == 0 else "decimal", cost, ci % 2 == 0, 1000000.0))
+                for integer in (True, False):
+                    out.append((tree, "d25", "exact" if (ci + integer) % 2 == 0 else "decimal", cost, integer, 1000000.0, False))
     return out
 
 
@@ -400,16 +423,22 @@ def family(tier, seed, nested_full=False):
     specs = []
     sts = stacks(tier)
     one_at_a_time = stacks("quick")
-    for tree, data, alpha, cost, integer, capital in configs(tier, seed):
-        use = sts if (tree == "flat" or tier == "quick") else one_at_a_time
-        if tier == "quick" and tree != "flat":
-            # one-at-a-time only (no pairs) off the flat tree
-            use = [s for s in one_at_a_time if sum(1 for k in BASE if s.get(k) != BASE[k]) <= 1]
+    singles = [s for s in one_at_a_time if sum(1 for k in BASE if s.get(k) != BASE[k]) <= 1]
+    for tree, data, alpha, cost, integer, capital, full in configs(tier, seed):
+        if full:
+            use = sts
+        elif tier == "quick":
+            use = singles  # one-at-a-time only (no pairs) off the flat tree
+        else:
+            use = one_at_a_time
         for st in use:
             if tree in ("nested", "nested_sec", "deep", "nested_sel") and st["gate"] not in CAL_GATES + ["once", "ondate", "everyn", "or"]:
                 # sub-strategy stacks that trade unconditionally act on the synthetic row (F-C10p, C09 note)
                 continue
             if tree in ("nested", "nested_sec", "deep", "nested_sel") and st.get("flow") is not None:
+                continue
+            if st["mod"] == "limitweights" and st["weigh"] in ("specified", "short", "target"):
+                # ffn.limit_weights is defined for weights that sum to one only
                 continue
             if tree in ("nested_sec", "deep") and (st["select"] in ("where", "statn", "statn_lag") or st["weigh"] == "target"):
                 # the shared tables name tickers outside these sub-strategies' declared universe
